@@ -6,6 +6,7 @@ import (
 	"os"
 	"path/filepath"
 	"runtime"
+	"strconv"
 	"strings"
 	"sync"
 	"sync/atomic"
@@ -147,16 +148,30 @@ type inflightRec struct {
 	src   string
 	opts  Opts
 	start time.Time
-	cpu   time.Duration // CPU time of the process when the compilation started
+	tid   int // OS thread the compiling goroutine is locked to
 }
 
-// processCPU is the user+system CPU time this process has used so far.
-func processCPU() time.Duration {
-	var ru syscall.Rusage
-	if syscall.Getrusage(syscall.RUSAGE_SELF, &ru) != nil {
+// threadCPU is the user+system CPU time the OS thread tid has used so far (10 ms resolution), read
+// from /proc. The compiling goroutine is locked to its thread for the duration of a compilation, so
+// this is the CPU time of the compilation itself: neither a starved machine nor the garbage
+// collector's threads can make a short compilation look like a spinning one.
+func threadCPU(tid int) time.Duration {
+	b, err := os.ReadFile(fmt.Sprintf("/proc/self/task/%d/stat", tid))
+	if err != nil {
 		return 0
 	}
-	return time.Duration(ru.Utime.Nano() + ru.Stime.Nano())
+	s := string(b)
+	i := strings.LastIndexByte(s, ')')
+	if i < 0 {
+		return 0
+	}
+	f := strings.Fields(s[i+1:])
+	if len(f) < 13 {
+		return 0
+	}
+	ut, _ := strconv.ParseInt(f[11], 10, 64)
+	st, _ := strconv.ParseInt(f[12], 10, 64)
+	return time.Duration(ut+st) * 10 * time.Millisecond
 }
 
 var inflight atomic.Pointer[inflightRec]
@@ -172,17 +187,23 @@ type HangCase struct {
 
 func startWatchdog() {
 	go func() {
+		var seen *inflightRec
+		var seenCPU time.Duration
 		for {
 			time.Sleep(250 * time.Millisecond)
 			r := inflight.Load()
 			if r == nil {
 				continue
 			}
+			if r != seen { // first sight of this compilation (at most 250 ms after its start)
+				seen, seenCPU = r, threadCPU(r.tid)
+				continue
+			}
 			why := ""
 			// wall-clock alone would suspect a hang whenever the machine is oversubscribed: a spinning
 			// compilation also burns CPU, so both must have passed (a compilation blocked without using
 			// CPU is suspected after ten times the limit)
-			if wall := time.Since(r.start); wall > hangLimit && (processCPU()-r.cpu > hangLimit/2 || wall > 10*hangLimit) {
+			if wall := time.Since(r.start); wall > hangLimit && (threadCPU(r.tid)-seenCPU > hangLimit/2 || wall > 10*hangLimit) {
 				why = fmt.Sprintf("a compilation has been running for more than %v", hangLimit)
 			} else {
 				var ms runtime.MemStats
@@ -232,7 +253,10 @@ func init() {
 func Compile(src string, o Opts) (res Result) {
 	res.Stage = "parse"
 	if inflight.Load() == nil { // (nested use from checkHang's goroutine keeps the outer record)
-		inflight.Store(&inflightRec{src: src, opts: o, start: time.Now(), cpu: processCPU()})
+		runtime.LockOSThread()
+		defer runtime.UnlockOSThread()
+		tid := syscall.Gettid()
+		inflight.Store(&inflightRec{src: src, opts: o, start: time.Now(), tid: tid})
 		defer inflight.Store(nil)
 	}
 	setBudget(int64(4*len(src) + 256))
